@@ -134,6 +134,50 @@ def parseNats (s : String) : Option (List Nat) :=
     | some c, some l => some (c :: l)
     | _, _ => none) (some [])
 
+/-- `sop expr n <RPN>`: operands are cube lists, `&` `|` `!` the operators of `Sop`; `none` = panic,
+    `some none` = malformed line -/
+def evalSopExpr (n : Nat) : List String → List Sop → Option (Option Sop)
+  | [], [s] => some (some s)
+  | [], _ => some none
+  | tok :: r, st =>
+    if tok == "&" || tok == "|" then
+      match st with
+      | b :: a :: st' =>
+        (match (if tok == "&" then Sop.and a b else Sop.or a b) with
+        | some x => evalSopExpr n r (x :: st')
+        | none => none)
+      | _ => some none
+    else if tok == "!" then
+      match st with
+      | a :: st' => (match Sop.not a with
+        | some x => evalSopExpr n r (x :: st')
+        | none => none)
+      | _ => some none
+    else match parseCubes tok with
+      | some cs => (match Sop.fromCubes n cs with
+        | some x => evalSopExpr n r (x :: st)
+        | none => none)
+      | none => some none
+
+/-- `esop expr n <RPN>`: `^` and `!` of `Esop` -/
+def evalEsopExpr (n : Nat) : List String → List Esop → Option (Option Esop)
+  | [], [s] => some (some s)
+  | [], _ => some none
+  | tok :: r, st =>
+    if tok == "^" then
+      match st with
+      | b :: a :: st' => (match Esop.xor a b with
+        | some x => evalEsopExpr n r (x :: st')
+        | none => none)
+      | _ => some none
+    else if tok == "!" then
+      match st with
+      | a :: st' => evalEsopExpr n r (Esop.not a :: st')
+      | _ => some none
+    else match parseCubes tok with
+      | some cs => evalEsopExpr n r ((⟨n, cs⟩ : Esop) :: st)
+      | none => some none
+
 /-- run `k` items of the iterator from `it`; returns (items seen, digest, whether one more call yields an item) -/
 def iterRun : Nat → Dyn.Iter → Nat → Nat → Nat × Nat × Bool
   | 0, it, cnt, h => (cnt, h, it.next.1.isSome)
@@ -511,6 +555,18 @@ def step (line : String) : String :=
   -- sums of products
   | ["sop", "fromcubes", n, cs] => (match n.toNat?, parseCubes cs with
     | some n, some cs => okOrPanic ((Sop.fromCubes n cs).map (fun s => showCubes s.cubes)) | _, _ => "bad-op")
+  | "sop" :: "expr" :: n :: toks => (match n.toNat? with
+    | some n => (match evalSopExpr n toks [] with
+      | some (some r) => "ok " ++ showCubes r.cubes
+      | some none => "bad-op"
+      | none => "panic")
+    | none => "bad-op")
+  | "esop" :: "expr" :: n :: toks => (match n.toNat? with
+    | some n => (match evalEsopExpr n toks [] with
+      | some (some r) => "ok " ++ showCubes r.cubes
+      | some none => "bad-op"
+      | none => "panic")
+    | none => "bad-op")
   | ["sop", "and", n, a, b] => (match n.toNat?, parseCubes a, parseCubes b with
     | some n, some a, some b => okOrPanic ((Sop.and ⟨n, a⟩ ⟨n, b⟩).map (fun s => showCubes s.cubes)) | _, _, _ => "bad-op")
   | ["sop", "or", n, a, b] => (match n.toNat?, parseCubes a, parseCubes b with
